@@ -318,7 +318,12 @@ def make_numpy():
         return g
     m.floor = _rounding("floor", lambda v: float(math.floor(v)), _sym_floor)
     m.ceil = _rounding("ceil", lambda v: float(math.ceil(v)), _sym_ceil)
-    m.round = _elementwise("round", lambda v: float(np.round(float(v))))
+    def _np_round(x, decimals=0, *a, **k):
+        """numpy.round / around: half to even, exact on rationals, symbolic on symbolic reals (core.s_round)"""
+        if isinstance(x, Arr):
+            return x.round(decimals) if (T.has_sym(x) or decimals) else NDArray(T._uf(lambda v: v if isinstance(v, (int, np.integer)) and not isinstance(v, bool) else float(np.round(float(v))), 1)(x.a), dtype="float64")
+        return core.s_round(x, decimals) if (isinstance(x, Sym) or decimals) else float(np.round(float(x)))
+    m.round = _np_round
     m.around = m.round
     m.sign = _elementwise("sign", lambda v: (v > 0) - (v < 0))
     return m
